@@ -348,7 +348,18 @@ def gen_lambda(r, size):
             ("o7l := filter(o7l ++ [5], \\y_ -> y_ < 9)", "o7l"), ("o7l := fold(o7l, \\a_, b_ -> a_ + b_ + 1)", "o7l"),
             ("o7l := o7l ++ [1]", "o7l"), ("o7l := (o7l map (+ 1))", "o7l"), ("o7l := [o7l, (\\z_ -> z_ ++ o7l)([7])]", "o7l"),
             ("o8 := o8 + 1", "o8"), ("o8 := max(o8, 5)", "o8"), ("o8 := (\\z_ -> z_ + o8)(1)", "o8"),
-            ("o8 := hf2_(o8, \\z_ -> z_ * 2)", "o8"), ("o8 := sum(map([o8, 2], \\z_ -> z_ + o8))", "o8")])
+            ("o8 := hf2_(o8, \\z_ -> z_ * 2)", "o8"), ("o8 := sum(map([o8, 2], \\z_ -> z_ + o8))", "o8"),
+            # binding constructs that shadow the outer name in ONE nested scope while a sibling scope / the code
+            # after it reads the outer variable
+            ("swv_ := (switch (@A) case [o8] -> o8 case 2 -> o8 * 3 case _ -> o8 + 1)", "swv_"),
+            ("swv_ := (switch (@A) case o8: str -> o8 case 7 -> o8 - 1 case _ -> [o8])", "swv_"),
+            ("swv_ := (switch ([@A, 3]) case o8, 4 -> o8 case _, 3 -> o8 + 7 case _ -> o8)", "swv_"),
+            ("swv_ := [(for (o8 <- [4, 5]) yield o8 + 1), o8]", "swv_"),
+            ("swv_ := ((\\o8 -> o8 * 2)(21) + o8)", "swv_"),
+            ("swv_ := [(try (throw @A) catch o8 -> o8), o8]", "swv_")])
+        # (not planted: `if (c) (o8 := 70; o8) else o8 + 1` -- if-branches share the enclosing scope, which makes it
+        # an instance of the known finding about declarations that do not dominate the reads of the outer name)
+        decl = decl.replace("@A", r.choice(["1", "2", "7", "[5]", "\"s\"", "0"] + params))
         if "hf2_" in decl:
             decl = "hf2_ := \\v_, f_ -> f_(v_) + 1; " + decl
         body = "(%s; print(%s); %s)" % (decl, nm, body)
@@ -407,7 +418,7 @@ def shard(ctx, si, n):
                 re_stmts += FN_REASSIGN
             if "o7l :=" in body:
                 re_stmts.append("o7l = [9, 9]")
-            if "o8 :=" in body:
+            if "o8" in body:
                 re_stmts.append("o8 = 50")
             for sw in BUILTIN_SWAPS:
                 a, b = sw[5:].split(", ")
